@@ -93,12 +93,14 @@ def _run_one(args):
         return (v["id"], "ERROR", str(e)[:300])
 
 
-def run_selftest(prop, ctx, jobs=None):
+def run_selftest(prop, ctx, jobs=None, only=None):
     load_variants()
     served = {rid for rid, _, _ in core.rules_for(prop)}
     mine = [v for v in VARIANTS if prop in v["props"]
             and (v["kind"] == "twin" or v["rule"] is None
                  or v["rule"] in served)]
+    if only:
+        mine = [v for v in mine if only in v["id"]]
     base_idents, _ = _baseline_idents(prop, ctx)
     jobs = jobs or min(16, os.cpu_count() or 1, max(1, len(mine)))
     out = []
